@@ -872,6 +872,11 @@ static int _fetch_and_process_packet(OggVorbis_File *vf,
           vf->current_serialno=vf->os.serialno;
           vf->current_link++;
           link=0;
+          /* _fetch_headers has already submitted the page we hold to
+             the stream state; submitting it a second time below would
+             make libogg see a repeated page number and report a hole
+             at every link boundary of an intact chained stream */
+          continue;
         }
       }
     }
